@@ -231,6 +231,8 @@ pub fn generate(tier: &str, seed: u64, out: &mut dyn Write) {
         }
         writeln!(out, "END").unwrap();
     }
+    // the send-side alias table (an allocator over [1, max] plus two maps), all public methods
+    crate::alias::generate(tier, &mut rng, out);
     eprintln!("alloc: dfs nodes {nodes}");
 }
 
@@ -242,13 +244,27 @@ pub fn replay(text: &str, out: &mut dyn Write) {
     let mut st8: Vec<ValueAllocator<u8>> = vec![];
     let mut pm16: Option<PacketIdManager<u16>> = None;
     let mut pm32: Option<PacketIdManager<u32>> = None;
+    let mut tas: Option<mqtt_protocol_core::mqtt::packet::TopicAliasSend> = None;
     for line in text.lines() {
         let w: Vec<&str> = line.split_whitespace().collect();
         if w.is_empty() {
             continue;
         }
+        if w[0] == "T" && w.len() >= 4 && w[1] == "alias" {
+            tas = Some(mqtt_protocol_core::mqtt::packet::TopicAliasSend::new(w[3].parse().unwrap()));
+            writeln!(out, "{line}").unwrap();
+            continue;
+        }
+        if w[0] == "A" {
+            if let Some(t) = tas.as_mut() {
+                let op = line[2..].split(" = ").next().unwrap();
+                crate::alias::apply(t, op, out);
+            }
+            continue;
+        }
         match w[0] {
             "T" => {
+                tas = None;
                 let lo: u64 = w[3].parse().unwrap();
                 let hi: u64 = w[4].parse().unwrap();
                 let tm: u64 = w[5].parse().unwrap();
